@@ -4,7 +4,6 @@ import CogentModel.Proofs.Splitlines
 /-! Helper lemmas for C06: writers followed by parsers. -/
 namespace CogentModel.SeqFormats
 open CogentModel.Splitlines CogentModel.SeqSpec
-variable {cfg : Cfg}
 
 instance exceptDecEq {ε α : Type} [DecidableEq ε] [DecidableEq α] : DecidableEq (Except ε α)
   | .ok a, .ok b => if h : a = b then isTrue (by rw [h]) else isFalse (by intro e; cases e; exact h rfl)
@@ -173,17 +172,17 @@ theorem isLabel_seq {lc : List Char} {w : Str} (h : wfSeq lc w = true) : isLabel
 
 
 theorem strictGo_cons (lc : List Char) (label : Option Str) (seq : List Str) (line : Str) (rest : List Str) :
-    strictGo cfg lc label seq (line :: rest) =
-    if line.isEmpty || (line.head? = some '#' && !(cfg.gdeHashLabel && lc.contains '#')) then strictGo cfg lc label seq rest
+    strictGo lc label seq (line :: rest) =
+    if line.isEmpty || (line.head? = some '#' && !lc.contains '#') then strictGo lc label seq rest
     else if isLabel lc line then
       match label with
       | some l =>
         if seq.isEmpty then .error .recordError
-        else (strictGo cfg lc (some (strip (line.drop 1))) [] rest).map (fun rs => (l, clean seq) :: rs)
+        else (strictGo lc (some (strip (line.drop 1))) [] rest).map (fun rs => (l, clean seq) :: rs)
       | none =>
         if !seq.isEmpty then .error .recordError
-        else strictGo cfg lc (some (strip (line.drop 1))) [] rest
-    else strictGo cfg lc label (seq ++ [strip line]) rest := by
+        else strictGo lc (some (strip (line.drop 1))) [] rest
+    else strictGo lc label (seq ++ [strip line]) rest := by
   rfl
 
 theorem fasterGo_cons (lc : List Char) (label : Option Str) (seq : List Str) (line : Str) (rest : List Str) :
@@ -196,7 +195,7 @@ theorem fasterGo_cons (lc : List Char) (label : Option Str) (seq : List Str) (li
   rfl
 
 theorem strictGo_seqLines {lc : List Char} (label : Option Str) : ∀ (ws : List Str) (seq rest : List Str),
-    (∀ w ∈ ws, wfSeq lc w = true) → strictGo cfg lc label seq (ws ++ rest) = strictGo cfg lc label (seq ++ ws) rest
+    (∀ w ∈ ws, wfSeq lc w = true) → strictGo lc label seq (ws ++ rest) = strictGo lc label (seq ++ ws) rest
   | [], seq, rest, _ => by simp
   | w :: ws, seq, rest, h => by
     have hw := h w List.mem_cons_self
@@ -241,7 +240,7 @@ def expected (recs : List (Str × List Str)) : List Rec := recs.map (fun r => (r
 theorem strictGo_recs {lc : List Char} {l0 : Char} (hl0 : lc.contains l0 = true) (hh : l0 ≠ '#') :
     ∀ (recs : List (Str × List Str)) (label : Str) (seq : List Str), WfRecs lc recs → seq ≠ [] →
     (∀ w ∈ seq, wfSeq lc w = true) →
-    strictGo cfg lc (some label) seq (recLines l0 recs) = .ok ((label, seq.flatten) :: expected recs)
+    strictGo lc (some label) seq (recLines l0 recs) = .ok ((label, seq.flatten) :: expected recs)
   | [], label, seq, _, hs, hw => by
     have : seq.isEmpty = false := by cases seq <;> simp at hs ⊢
     simp [recLines, strictGo, this, expected, clean_wf hw]
@@ -262,13 +261,13 @@ theorem strictGo_recs {lc : List Char} {l0 : Char} (hl0 : lc.contains l0 = true)
 
 theorem strictParser_recs {lc : List Char} {l0 : Char} (hl0 : lc.contains l0 = true) (hh : l0 ≠ '#')
     (recs : List (Str × List Str)) (hne : recs ≠ []) (hwf : WfRecs lc recs) :
-    strictParser cfg lc (recLines l0 recs) = .ok (expected recs) := by
+    strictParser lc (recLines l0 recs) = .ok (expected recs) := by
   cases recs with
   | nil => exact absurd rfl hne
   | cons r recs =>
     have hr := hwf r List.mem_cons_self
     obtain ⟨hne', hws⟩ := wfLines_iff hr.2
-    have ih := strictGo_recs (cfg := cfg) hl0 hh recs r.1 r.2 (fun x hx => hwf x (List.mem_cons_of_mem _ hx)) hne' hws
+    have ih := strictGo_recs hl0 hh recs r.1 r.2 (fun x hx => hwf x (List.mem_cons_of_mem _ hx)) hne' hws
     unfold strictParser
     simp only [recLines, List.flatMap_cons, List.cons_append] at ih ⊢
     rw [strictGo_cons]
@@ -588,15 +587,12 @@ theorem splitLabelStart_bodies : ∀ (recs : List (Str × List Str)) (r : Str ×
     simp only [List.flatMap_cons, List.cons_append, List.map_cons]
     rw [splitLabelStart_sep _ _ _ (h r List.mem_cons_self) (recBody_last r), ih]
 
-theorem filterMap_pieces (cfg : Cfg) (ps : List Str) :
-    (if cfg.dropPreLabel = true then ([] :: ps).drop 1 else [] :: ps).filterMap bytesRecord = ps.filterMap bytesRecord := by
-  have hnone : bytesRecord [] = none := by simp [bytesRecord]
-  cases cfg.dropPreLabel <;> simp [hnone]
+theorem filterMap_pieces (ps : List Str) : (([] : Str) :: ps).drop 1 = ps := rfl
 
 /-- the bytes based parser returns every well-formed label verbatim — `>` inside a label included -/
 theorem fastaBytes_recs (recs : List (Str × List Str)) (hwf : WfRecs ['>'] recs)
     (hlow : ∀ r ∈ recs, noLower r.2.flatten = true) :
-    fastaBytes cfg (unlines (recLines '>' recs)) = expected recs := by
+    fastaBytes (unlines (recLines '>' recs)) = expected recs := by
   rw [unlines_recLines]
   cases recs with
   | nil => simp [fastaBytes, splitLabelStart, bytesRecord, expected]
